@@ -102,7 +102,23 @@ def check_C01(code, version, env):
 # ------------------------------------------------------------------ C02
 def check_C02(code, version, env):
     F = []
-    m = _parse(code, version, F, 'bnd:C02.parse.total')
+    # the property's bound: nesting <= 100 must parse under Python's *default* recursion limit
+    old = sys.getrecursionlimit()
+    sys.setrecursionlimit(1000)
+    try:
+        m = grammar(version).parse(code)
+    except RecursionError as e:
+        depth = max(len(l) - len(l.lstrip(' ')) for l in code.split('\n')) if code else 0
+        nest = max(code.count(c) for c in '([{') if code else 0
+        if max(depth, nest, code.count('not '), code.count('-'), code.count('lambda'), code.count('await'),
+               code.count(' if '), code.count('='), code.count('.')) <= 100 and len(code) < 5000:
+            F.append(Fail('bnd:C02.parse.total', 'RecursionError', 'RecursionError at nesting <= 100', code))
+        return F
+    except Exception as e:  # noqa
+        F.append(_crash('bnd:C02.parse.total', e, code))
+        return F
+    finally:
+        sys.setrecursionlimit(old)
     if m is None:
         return F
     if m.parent is not None or m.type != 'file_input':
